@@ -426,7 +426,17 @@ def build(pipe, rec, pre, ctx):
     if rec is not None and (not ends_only or len(pre) == 0):
         ops.append(tap(rec, list(pre) + [0]))
     for i, op in enumerate(pipe, start=1):
-        ops.append(real_op(op, rec, pre, i, ctx))
+        if ctx.get('share_ops') and op['op'] not in ('roll', 'split', 'group_by', 'time_split', 'tee', 'router'):
+            # the same python operator object wherever the same descriptor occurs in the
+            # pipeline (operators are factories: using one twice must be harmless)
+            import json as _json
+            k = _json.dumps(op, sort_keys=True)
+            cache = ctx.setdefault('_opcache', {})
+            if k not in cache:
+                cache[k] = real_op(op, rec, pre, i, ctx)
+            ops.append(cache[k])
+        else:
+            ops.append(real_op(op, rec, pre, i, ctx))
         if rec is not None and (not ends_only or (len(pre) == 0 and i == len(pipe))):
             ops.append(tap(rec, list(pre) + [i]))
     return ops
@@ -452,7 +462,7 @@ def _subscribe_routers(rec, ctx):
         errors.subscribe(on_next=dl_next, on_completed=dl_done, on_error=lambda e: None)
 
 
-def run_mux(pipe, events, timescale=None, taps='all', dl_late=False):
+def run_mux(pipe, events, timescale=None, taps='all', dl_late=False, share_ops=False):
     """Push mux events directly on a MuxObservable (as the repository's own tests do).
     events: [{'t':'c'|'n'|'d', 'k':[idx], 'v':value}] ; the source completes at the end
     unless the last event is {'t':'open'}."""
@@ -460,7 +470,7 @@ def run_mux(pipe, events, timescale=None, taps='all', dl_late=False):
     import rxsci as rs
     from rx.subject import Subject
     rec = Recorder()
-    ctx = {'routers': [], 'timescale': timescale, 'taps': taps}
+    ctx = {'routers': [], 'timescale': timescale, 'taps': taps, 'share_ops': share_ops}
     ops = build(pipe, rec, [], ctx)
     src = Subject()
     store = rs.state.StoreManager(store_factory=rs.state.MemoryStore)
